@@ -1,7 +1,7 @@
 """C34 (bounded part): Database.to_json never includes an object the current user may not view - on REAL declarations (perm(), user_groups_getter, user_roles_getter,
 obj_labels_getter, set_current_user), not on stub rules.
 
-Model: Person (viewable by group staff), Doc (viewable by anybody when labelled public, and by its owner), Note (viewable by anybody, except that one rule excludes nothing...),
+Model: Person with a subclass Employee, and Badge (one set_perms_for() call for both: viewable by group staff), Doc (viewable by anybody when labelled public, and by its owner),
 Comment (viewable by anybody). For every current user (staff / owner of secret documents / a third person / nobody), every piece of data out of an enumerated family (single objects,
 lists, nested dicts, query results) and every subset of the four relationship attributes as include=: the reference closure (objects named in the data, then whatever the included
 relationship attributes reach, transitively) is computed in Python, and the viewable set by reading the rules declaratively. to_json must
@@ -12,7 +12,7 @@ from vf.verify import Case
 from pony import orm
 from pony.orm import core
 
-BOUND = '4 users x 16 include sets x 19 data shapes on one model with group / role / label rules declared through the public API'
+BOUND = '4 users x 16 include sets x 22 data shapes (plus class / attribute / subclass answers) on one model with group / role / label rules declared through the public API'
 _M = None
 
 
@@ -26,6 +26,13 @@ def model():
         name = orm.Required(str)
         staff = orm.Required(bool, default=False)
         docs = orm.Set('Doc')
+
+    class Employee(Person):                            # a subclass: rules declared for Person apply to it
+        rank = orm.Optional(int)
+
+    class Badge(db.Entity):                            # declared in the SAME set_perms_for() call as Person, after it
+        id = orm.PrimaryKey(int)
+        code = orm.Optional(str)
 
     class Doc(db.Entity):
         id = orm.PrimaryKey(int)
@@ -49,7 +56,7 @@ def model():
     @core.obj_labels_getter(Doc)
     def doc_labels(d): return None if d.secret else 'public'
 
-    with db.set_perms_for(Person):
+    with db.set_perms_for(Person, Badge):              # several entities in one call; the one with a subclass is not the last
         core.perm('view', group='staff')
     with db.set_perms_for(Comment):
         core.perm('view', group='anybody')
@@ -58,17 +65,18 @@ def model():
         core.perm('view', role='owner')
     with orm.db_session:
         staff = Person(id=1, name='staff', staff=True); other = Person(id=2, name='other'); third = Person(id=3, name='third')
+        Employee(id=4, name='employee', rank=2); Badge(id=1, code='b')
         Doc(id=10, title='public of other', owner=other); Doc(id=11, title='secret of other', secret=True, owner=other)
         Doc(id=12, title='secret of staff', secret=True, owner=staff); Doc(id=13, title='public of third', owner=third)
         Comment(id=100, text='on public', doc=10); Comment(id=101, text='on secret', doc=11); Comment(id=102, text='on own secret', doc=12); Comment(id=103, text='second on public', doc=10)
-    _M = types.SimpleNamespace(db=db, Person=Person, Doc=Doc, Comment=Comment)
+    _M = types.SimpleNamespace(db=db, Person=Person, Employee=Employee, Badge=Badge, Doc=Doc, Comment=Comment)
     return _M
 
 
 def may_view(user, obj):
     """the declared rules, read declaratively"""
     kind = type(obj).__name__
-    if kind == 'Person': return user is not None and user.staff
+    if kind in ('Person', 'Employee', 'Badge'): return user is not None and user.staff
     if kind == 'Comment': return True
     return (not obj.secret) or (user is not None and obj.owner is user)
 
@@ -79,6 +87,7 @@ DATA = {
     'comment 100': lambda M: M.Comment[100], 'comment 101': lambda M: M.Comment[101], 'comment 102': lambda M: M.Comment[102],
     'list of public docs': lambda M: [M.Doc[10], M.Doc[13]], 'list of comments': lambda M: [M.Comment[100], M.Comment[102]], 'all comments': lambda M: list(M.Comment.select().order_by(M.Comment.id)),
     'nested dict': lambda M: {'a': {'b': [M.Comment[103], 1, 'x']}, 'c': M.Doc[13]}, 'dict with a secret': lambda M: {'k': [M.Doc[10]], 'z': {'deep': M.Doc[11]}},
+    'employee 4': lambda M: M.Employee[4], 'employee among persons': lambda M: [M.Person[2], M.Person[4]], 'badge': lambda M: M.Badge[1],
     'no objects': lambda M: {'n': 1}, 'public docs by query': lambda M: list(orm.select(d for d in M.Doc if not d.secret).order_by(lambda d: d.id)),
     'all docs by query': lambda M: list(M.Doc.select().order_by(M.Doc.id)), 'unloaded reference': lambda M: M.Comment[101].doc,
 }
@@ -123,6 +132,14 @@ def case(cfg, values):
     def call():
         M = model(); bad = []
         include = [getattr(getattr(M, a.split('.')[0]), a.split('.')[1]) for a in cfg['include']]
+        # class-level and attribute-level answers for the same declarations (a rule declared for an entity covers its subclasses and their own attributes)
+        with orm.db_session:
+            user = None if cfg['user'] is None else M.Person[cfg['user']]
+            staff = user is not None and user.staff
+            for target, want in ((M.Person, staff), (M.Employee, staff), (M.Badge, staff), (M.Employee.rank, staff), (M.Person.name, staff), (M.Badge.code, staff), (M.Comment, True), (M.Comment.text, True),
+                                 (M.Doc, True), (M.Employee[4], staff)):
+                got = (core.can_view(user, target), core.has_perm(user, 'view', target), core.can_view(user, target))
+                if got != (want, want, want): bad.append(('can_view / has_perm of %s' % (target,), 'answers %r' % (got,), 'the declared rules grant: %r' % want))
         for name, mk in DATA.items():
             with orm.db_session:
                 user = None if cfg['user'] is None else M.Person[cfg['user']]
